@@ -229,3 +229,135 @@ def loss(i, tkey):
         raise KeyError(tkey)
     return {"name": f"Loss({tkey})", "modes": (i,), "M": M, "g2": g2, "g5": g5, "diag": False, "kind": "lin", "t": t,
             "mk": lambda pq, t=t: pq.Loss(transmissivity=t), "passive": True}
+
+
+# ----------------------------------------------------------------------------------------------------------------
+# Gaussian lattice: blocks (P, A) and displacement alpha as fractions over Z[sqrt2, i]: (ring 4-tuple, denominator)
+def q(r, den=1):
+    return (tuple(r), int(den))
+
+
+def q_to_complex(x):
+    return ring_to_complex(x[0]) / x[1]
+
+
+def tla_q(x):
+    return "[n |-> %s, d |-> %d]" % (tla_ring(x[0]), x[1])
+
+
+def tla_qmat(M):
+    return "<< " + ", ".join("<<" + ", ".join(tla_q(x) for x in row) + ">>" for row in M) + " >>"
+
+
+Q0, Q1 = q(ring(0)), q(ring(1))
+
+
+def qmul_unit(k, x):
+    return q(rmul(UNIT[k % 4], x[0]), x[1])
+
+
+def gauss_record(g):
+    return ('[name |-> "%s", modes |-> <<%s>>, P |-> %s, A |-> %s, alpha |-> <<%s>>, passive |-> %s]'
+            % (g["name"], ", ".join(map(str, g["modes"])), tla_qmat(g["P"]), tla_qmat(g["A"]), ", ".join(tla_q(a) for a in g["alpha"]),
+               "TRUE" if g["passive"] else "FALSE"))
+
+
+def _from_passive(pg):
+    """passive lattice gate (matrix M / (sqrt2^g2 5^g5)) -> fraction blocks"""
+    k = len(pg["modes"])
+    den = 5 ** pg["g5"] * 2 ** ((pg["g2"] + 1) // 2)
+    s2 = ring(0, 1) if pg["g2"] % 2 == 1 else ring(1)
+    P = [[q(rmul(s2, pg["M"][i][j]), den) for j in range(k)] for i in range(k)]
+    return {"name": pg["name"], "modes": pg["modes"], "P": P, "A": [[Q0] * k for _ in range(k)], "alpha": [Q0] * k, "passive": True, "mk": pg["mk"]}
+
+
+SQUEEZE = {"ln2": (5, 3, 4, math.log(2.0)), "-ln2": (5, -3, 4, -math.log(2.0)), "ln3": (5, 4, 3, math.log(3.0))}     # cosh num, sinh num, den, r
+
+
+def squeezing(i, rkey, k):
+    c, s, den, r = SQUEEZE[rkey]
+    return {"name": f"Squeezing({rkey},{k}pi/2)", "modes": (i,), "P": [[q(ring(c), den)]], "A": [[qmul_unit(k, q(ring(-s), den))]], "alpha": [Q0],
+            "passive": False, "mk": lambda pq, r=r, phi=k * np.pi / 2: pq.Squeezing(r=r, phi=phi)}
+
+
+def squeezing2(i, j, rkey, k):
+    c, s, den, r = SQUEEZE[rkey]
+    es = qmul_unit(k, q(ring(s), den))
+    return {"name": f"Squeezing2({rkey},{k}pi/2)", "modes": (i, j), "P": [[q(ring(c), den), Q0], [Q0, q(ring(c), den)]], "A": [[Q0, es], [es, Q0]],
+            "alpha": [Q0, Q0], "passive": False, "mk": lambda pq, r=r, phi=k * np.pi / 2: pq.Squeezing2(r=r, phi=phi)}
+
+
+def quadratic_phase(i, snum, sden):
+    half = q(ring(c=snum), 2 * sden)            # i s / 2
+    return {"name": f"QuadraticPhase({snum}/{sden})", "modes": (i,), "P": [[q(ring(2 * sden, 0, snum, 0), 2 * sden)]], "A": [[half]], "alpha": [Q0],
+            "passive": False, "mk": lambda pq, s=snum / sden: pq.QuadraticPhase(s=s)}
+
+
+def controlled_x(i, j, snum, sden):
+    h, mh = q(ring(snum), 2 * sden), q(ring(-snum), 2 * sden)
+    return {"name": f"ControlledX({snum}/{sden})", "modes": (i, j), "P": [[Q1, mh], [h, Q1]], "A": [[Q0, h], [h, Q0]], "alpha": [Q0, Q0],
+            "passive": False, "mk": lambda pq, s=snum / sden: pq.ControlledX(s=s)}
+
+
+def controlled_z(i, j, snum, sden):
+    ih = q(ring(c=snum), 2 * sden)
+    return {"name": f"ControlledZ({snum}/{sden})", "modes": (i, j), "P": [[Q1, ih], [ih, Q1]], "A": [[Q0, ih], [ih, Q0]], "alpha": [Q0, Q0],
+            "passive": False, "mk": lambda pq, s=snum / sden: pq.ControlledZ(s=s)}
+
+
+def displacement(i, rnum, rden, k, kind="Displacement"):
+    a = qmul_unit(k, q(ring(rnum), rden))
+    if kind == "Displacement":
+        mk = lambda pq, r=rnum / rden, phi=k * np.pi / 2: pq.Displacement(r=r, phi=phi)     # noqa
+    elif kind == "PositionDisplacement":
+        a = q(ring(rnum), rden)
+        mk = lambda pq, x=rnum / rden: pq.PositionDisplacement(x=x)                          # noqa
+    else:
+        a = q(ring(c=rnum), rden)
+        mk = lambda pq, p=rnum / rden: pq.MomentumDisplacement(p=p)                          # noqa
+    return {"name": f"{kind}({rnum}/{rden},{k}pi/2)", "modes": (i,), "P": [[Q1]], "A": [[Q0]], "alpha": [a], "passive": False, "mk": mk}
+
+
+def gaussian_transform(i, j):
+    """GaussianTransform with blocks of two different single-mode squeezers (documented: S = [[P, A], [conj A, conj P]])"""
+    P = [[q(ring(5), 4), Q0], [Q0, q(ring(5), 3)]]
+    A = [[q(ring(-3), 4), Q0], [Q0, q(ring(c=-4), 3)]]
+    Pn = np.array([[1.25, 0], [0, 5 / 3]], dtype=complex)
+    An = np.array([[-0.75, 0], [0, -4j / 3]], dtype=complex)
+    return {"name": "GaussianTransform", "modes": (i, j), "P": P, "A": A, "alpha": [Q0, Q0], "passive": False,
+            "mk": lambda pq: pq.GaussianTransform(passive=Pn, active=An)}
+
+
+def gaussian_catalogue(d, rng=None, size=None):
+    gates = []
+    for i in range(d):
+        for rk in SQUEEZE:
+            for k in range(4):
+                gates.append(squeezing(i, rk, k))
+        for (a, b) in ((1, 1), (-1, 1), (1, 2), (2, 1)):
+            gates.append(quadratic_phase(i, a, b))
+        for (a, b) in ((1, 2), (1, 1), (2, 1)):
+            for k in range(4):
+                gates.append(displacement(i, a, b, k))
+        gates.append(displacement(i, 1, 2, 0, "PositionDisplacement"))
+        gates.append(displacement(i, -1, 1, 0, "MomentumDisplacement"))
+    pairs = [(i, j) for i in range(d) for j in range(d) if i != j]
+    for (i, j) in pairs:
+        for rk in ("ln2", "ln3"):
+            for k in range(4):
+                gates.append(squeezing2(i, j, rk, k))
+        for (a, b) in ((1, 1), (-1, 2), (2, 1)):
+            gates.append(controlled_x(i, j, a, b))
+            gates.append(controlled_z(i, j, a, b))
+        gates.append(gaussian_transform(i, j))
+    passive = [g for g in passive_catalogue(d, with_kerr=False)]
+    gates += [_from_passive(g) for g in passive]
+    if rng is not None and size is not None and len(gates) > size:
+        # keep a mix: half active, half passive
+        act = [g for g in gates if not g["passive"]]
+        pas = [g for g in gates if g["passive"]]
+        gates = rng.sample(act, min(len(act), size - size // 3)) + rng.sample(pas, min(len(pas), size // 3))
+    return gates
+
+
+HBARS = [(1, 2, 1, 1, 0.5), (2, 1, 2, 1, 2.0), (8, 1, 4, 1, 8.0)]      # hbar num, den, sqrt(2 hbar) num, den, float
